@@ -524,7 +524,32 @@ def _equal_out(self, func, res, args, kwargs):
     return res
 
 
+def _allclose_out(self, func, res, args, kwargs):
+    """torch.allclose(a, b, rtol, atol): all(|a - b| <= atol + rtol * |b|) - a data-dependent branch"""
+    a, b = args[0], args[1]
+    rtol = args[2] if len(args) > 2 else kwargs.get("rtol", 1e-5)
+    atol = args[3] if len(args) > 3 else kwargs.get("atol", 1e-8)
+    c = self.ctx
+    if tuple(a.shape) != tuple(b.shape) and a.numel() != 1 and b.numel() != 1:
+        return res
+    dt = torch.result_type(a, b)
+    if dt not in FLOATS:
+        return res
+    A, B = np.broadcast_arrays(self.terms_of(a, dt), self.terms_of(b, dt))
+    acc = None
+    for x, y in zip(A.reshape(-1), B.reshape(-1)):
+        diff = c.un("abs", dt, c.bin("sub", dt, x, y))
+        bound = c.bin("add", dt, c.const(atol, dt), c.bin("mul", dt, c.const(rtol, dt), c.un("abs", dt, y)))
+        e = c.cmp("le", diff, bound)
+        acc = e if acc is None else c.bin("and", BOOL, acc, e)
+    if acc is None or acc.op == "const":
+        return res
+    self.path.append((acc, bool(res), "branch"))
+    return res
+
+
 SCALAR_OUT = {
+    aten.allclose.default: _allclose_out,
     aten._local_scalar_dense.default: _scalar_out,
     aten.is_nonzero.default: _scalar_out,
     aten.equal.default: _equal_out,
